@@ -117,6 +117,21 @@ def tunnel_scenarios(tier):
                         dns={'t.test': '10.0.0.2'}, kinds='ARS', horizon=3000,
                         features={'role': 'tunnel', 'flags': fname, 'c2u': b'abcd', 'u2c': u2c, 'upstream_closes_first': True,
                                   '_expect_c': ACK + u2c, '_expect_eof': True}))
+    # the CLIENT finishes first: it uploads far more than the socket buffers hold and closes at once, while the
+    # upstream drains slowly -- every uploaded byte must still reach the upstream
+    up = stamp(60000, 21)
+    for fname, fl in flagsets:
+        if fname != 'default':
+            continue
+        for cname, tail in (('closes-at-once', [('send', up), ('close',)]),
+                            ('half-closes-at-once', [('send', up), ('shutdown_wr',), ('wait_eof',)])):
+            out.append(Scenario(
+                'tunnel-client-first/%s/upload60k/%s' % (fname, cname), ['--threadless'] + fl, mode='local',
+                clients=[dict(script=[('send', CONNECT), ('wait_recv', len(ACK))] + tail)],
+                origins={('10.0.0.2', 443): (lambda: netmc.TimedOrigin(reads=[(0.05 * (k + 1), 7000) for k in range(40)]))},
+                dns={'t.test': '10.0.0.2'}, kinds='', horizon=3000, min_time=1.5,
+                features={'role': 'tunnel', 'flags': fname, 'c2u': up, 'u2c': b'', 'client_closes_first': True,
+                          '_expect_c': ACK, '_expect_u': up, '_sockbuf': 4096, '_bound': 0, '_dt_busy': 0.01}))
     return out
 
 
